@@ -5,7 +5,9 @@
    densities, temperatures, velocities and stopping coefficients are arbitrary functions. *)
 Require Import Cherab.Common.Qx.
 Require Import Cherab.Model.C04_Beam.
-Require Import Cherab.Proofs.C04_Trapz Cherab.Proofs.C04_Main.
+From Coq Require Import Qround Permutation.
+Require Import Cherab.Model.C04_Policy.
+Require Import Cherab.Proofs.C04_Trapz Cherab.Proofs.C04_Main Cherab.Proofs.C04_More Cherab.Proofs.C04_Policy Cherab.Proofs.C04_Main2.
 Open Scope Q_scope.
 
 (* the two loops of _beam_stopping compute the documented composite coefficient
@@ -152,9 +154,106 @@ Example C04_nonvacuous :
     == norm2 (direction_raw witness_cfg 0 0 1).
 Proof. exact witness_ok. Qed.
 
+(* ------------------------------------------------------------------------------------------------
+   Deepening round
+   ------------------------------------------------------------------------------------------------ *)
+(* the attenuation-exponent loop refines its specification: T_i is the sum of the first i trapezoid areas *)
+Theorem C04_attenuation_exponent_is_trapezoid_sum :
+  forall z0 s0 (l : list (Q * Q)),
+  Forall2 Qeq (cumtrapz ((z0, s0) :: l)) (0 :: prefix_sums 0 (areas z0 s0 l)).
+Proof. exact cumtrapz_spec. Qed.
+Print Assumptions C04_attenuation_exponent_is_trapezoid_sum.
+
+(* the interpolant passes through its knots: at every axis node the line density IS the node value
+   P/(E m e)/v * exp(-T_i/v)  (C04_line_density_formula), for any node count *)
+Theorem C04_line_density_at_nodes :
+  forall sqrtf expf c n z y,
+  0 < b_len c -> (2 <= n)%Z -> In (z, y) (line_nodes_n sqrtf expf c n) ->
+  lin_interp (line_nodes_n sqrtf expf c n) z == y.
+Proof. exact main_at_nodes. Qed.
+Print Assumptions C04_line_density_at_nodes.
+
+(* the composite stopping coefficient does not depend on the order of the species *)
+Theorem C04_stopping_order_independent :
+  forall cf sp sp' bv r,
+  Permutation sp sp' ->
+  (forall s, In s sp -> forall e n n' t, n == n' -> sp_coef s e n t == sp_coef s e n' t) ->
+  beam_stopping cf sp bv r == beam_stopping cf sp' bv r.
+Proof. exact beam_stopping_perm. Qed.
+Print Assumptions C04_stopping_order_independent.
+
+(* layout of the axis nodes: at least 4, from exactly 0 to exactly the beam length, strictly increasing,
+   and never further apart than the requested attenuator step *)
+Theorem C04_nodes_span_beam_within_step :
+  forall c,
+  (4 <= nbeam c)%Z /\ node_z c (nbeam c) 0 == 0 /\ node_z c (nbeam c) (nbeam c - 1) == b_len c /\
+  (0 < b_len c -> chained Qlt (beam_z c)) /\
+  (0 < b_len c -> 0 < a_step c -> b_len c / inject_Z (nbeam c - 1) <= a_step c).
+Proof. exact main_nodes_layout. Qed.
+Print Assumptions C04_nodes_span_beam_within_step.
+
+(* the density is non-negative everywhere and, at every z, largest on the axis (envelope) *)
+Theorem C04_density_nonneg_peaks_on_axis :
+  forall sqrtf expf c nd x y z,
+  sqrt_like sqrtf -> exp_like expf -> cfg_valid c -> 0 <= lin_interp nd z ->
+  0 <= beam_density_with sqrtf expf nd c x y z /\
+  beam_density_with sqrtf expf nd c x y z <= beam_density_with sqrtf expf nd c 0 0 z.
+Proof. exact main_peak. Qed.
+Print Assumptions C04_density_nonneg_peaks_on_axis.
+
+(* PARTIAL, clamping ON: the cross-section integral is the line density times the integral of the unit
+   Gaussian cut off at the clamp radius -- a number independent of z, sigma and the divergence; the
+   normalisation of the full Gaussian is no longer needed.  With the analytic value of that number,
+   1 - exp(-clamp_sigma^2/2) (hypothesis of the second conjunct, NOT proved), the documented tail factor. *)
+Theorem C04_flux_clamped_partial :
+  forall sqrtf expf c I2 z,
+  sqrt_like sqrtf -> exp_like expf -> cfg_valid c -> integral_laws I2 ->
+  0 <= z -> z <= b_len c -> a_clamp c = true ->
+  I2 (fun x y => beam_density sqrtf expf c x y z) == line_density sqrtf expf c z * I2 (gauss2_clamped expf c)
+  /\ (I2 (gauss2_clamped expf c) == 1 - expf (- (1 # 2) * (a_clamp_sigma c * a_clamp_sigma c)) ->
+      I2 (fun x y => beam_density sqrtf expf c x y z) ==
+      line_density sqrtf expf c z * (1 - expf (- (1 # 2) * (a_clamp_sigma c * a_clamp_sigma c)))).
+Proof. exact main_flux_clamped. Qed.
+Print Assumptions C04_flux_clamped_partial.
+
+(* setter state machine (Beam energy/power/temperature/divergence/length/sigma, attenuator step/clamp_sigma):
+   the initial configuration is valid, EVERY history of setter calls keeps it valid, a rejected value
+   changes nothing, an accepted write wins and leaves the other fields alone *)
+Theorem C04_settings_valid_over_all_histories :
+  forall ops,
+  settings_valid initial /\
+  (forall st, settings_valid st -> settings_valid (fst (run_sets st ops))) /\
+  (forall st f v, accepts f v = false -> set_field st f v = (st, false)) /\
+  (forall st f v, accepts f v = true ->
+     stored (fst (set_field st f v)) f = (match f with FClampSigma => v * v | _ => v end) /\
+     forall g, field_eqb g f = false -> stored (fst (set_field st f v)) g = stored st g).
+Proof. exact main_settings. Qed.
+Print Assumptions C04_settings_valid_over_all_histories.
+
+(* the code facts that are regenerated from the source on every run (coq/Gen/C04/Source.v, lemma
+   source_tie : source_facts = model_facts) are exactly what the density model does; and the direct
+   entry point SingleRayAttenuator.density agrees with Beam.density on the whole beam *)
+Theorem C04_code_facts_are_the_model :
+  forall sqrtf expf nd c x y z sx sy r2,
+  nbeam c = Z.max (fst (cf_nbeam model_facts) + Qceiling (b_len c / a_step c)) (snd (cf_nbeam model_facts)) /\
+  beam_density_with sqrtf expf nd c x y z =
+    (if cmp_holds (fst (cf_density_zero model_facts)) z 0 || cmp_holds (snd (cf_density_zero model_facts)) z (b_len c)
+     then 0 else attenuator_density_with sqrtf expf nd c x y z) /\
+  direction sqrtf c x y z =
+    (if cmp_holds (cf_direction_axis model_facts) z 0 then mkvec 0 0 1 else normalise sqrtf (direction_raw c x y z)) /\
+  clamped sqrtf c x y z = a_clamp c && cmp_holds (cf_clamp model_facts) (norm_radius_sqr sqrtf c x y z) (clamp_sigma_sqr c) /\
+  gaussian_of expf c sx sy r2 = expf (fst (cf_gauss model_facts) * r2) / (snd (cf_gauss model_facts) * k_pi c * sx * sy) /\
+  (forall f v, accepts f v = negb (cmp_holds (reject_op f) v 0)) /\
+  (0 <= z -> z <= b_len c ->
+   attenuator_density_direct sqrtf expf nd c x y z = Some (beam_density_with sqrtf expf nd c x y z)).
+Proof. exact main_facts. Qed.
+Print Assumptions C04_code_facts_are_the_model.
+
+
 From Coq Require Import Reals.
 From Coquelicot Require Import Coquelicot.
-Require Import Cherab.Proofs.C04_Streamline.
+Require Import Cherab.Proofs.C04_Streamline Cherab.Proofs.C04_Real.
+From Coq Require Import Qreals.
 
 (* streamlines, differential form over the reals (the direction formula transcribed from the model):
    every differentiable curve x(z) that follows the field, dx/dz = e_x/e_z, has d/dz (x/sigma_x) = 0 *)
@@ -176,3 +275,17 @@ Theorem C04_streamline_constant :
   forall z, (a <= z <= b)%R -> (x z / sigma_R s t z = x a / sigma_R s t a)%R.
 Proof. exact streamline_constant. Qed.
 Print Assumptions C04_streamline_constant.
+
+(* the real field of the two theorems above IS the model's field: on rational points the embedding Q -> R
+   maps direction_raw and sigma^2 of Model/C04_Beam.v onto ex_R and sigma_R^2 (so the streamline theorems are
+   about the model's rational function, extended to R) *)
+Theorem C04_direction_model_is_real_field :
+  forall (c : beam_cfg) (x y z : Q),
+  (0 < b_sigma c)%Q ->
+  Q2R (vx (direction_raw c x y z)) = ex_R (Q2R (b_sigma c)) (Q2R (b_tx c)) (Q2R x) (Q2R z) /\
+  Q2R (vy (direction_raw c x y z)) = ex_R (Q2R (b_sigma c)) (Q2R (b_ty c)) (Q2R y) (Q2R z) /\
+  Q2R (vz (direction_raw c x y z)) = Q2R z /\
+  Q2R (sigma_x_sqr c z) = (sigma_R (Q2R (b_sigma c)) (Q2R (b_tx c)) (Q2R z) * sigma_R (Q2R (b_sigma c)) (Q2R (b_tx c)) (Q2R z))%R /\
+  Q2R (sigma_y_sqr c z) = (sigma_R (Q2R (b_sigma c)) (Q2R (b_ty c)) (Q2R z) * sigma_R (Q2R (b_sigma c)) (Q2R (b_ty c)) (Q2R z))%R.
+Proof. exact direction_raw_is_real_field. Qed.
+Print Assumptions C04_direction_model_is_real_field.
